@@ -5,7 +5,7 @@ package shmipc
 // C19: the net.Listener / net.Conn adapter on real unix sockets: Listen, real client sessions dialling in, streams
 // surfacing through Accept, Read / Write on the wrapped streams, Close of conns / listener / clients.
 // Line protocol (shared with ShmVerif/Drv/C19.lean; every op waits for the adapter to settle before the snapshot):
-//   dial | latedial <0|1> | open <k> | accept | echo <c> <n> | cclose <c> | drop <k> | lclose
+//   dial | latedial <0|1> | open <k> | accept | echo <c> <n> | tail <c> <n> | cclose <c> | drop <k> | lclose
 
 import (
 	"bytes"
@@ -337,6 +337,52 @@ func (c *c19Run) op(f []string) string {
 		}
 		c.tags["echo"] = true
 		return "ok " + c.snap()
+	case len(f) == 3 && f[0] == "tail":
+		// the client writes its last n bytes and closes its stream while the server is not reading; the server reads afterwards:
+		// every byte, in order, and only then the end of the stream
+		ci, n := vAtoi(f[1]), vAtoi(f[2])
+		if ci < 0 || ci >= len(c.conns) || n < 1 || n > 1<<16 || c.conns[ci].closed || c.conns[ci].stream == nil {
+			return "noop " + c.snap()
+		}
+		cc := c.conns[ci]
+		if cc.k < 0 || c.clients[cc.k].s.IsClosed() {
+			return "noop " + c.snap()
+		}
+		data := make([]byte, n)
+		for i := range data {
+			data[i] = byte(i*11 + n)
+		}
+		cc.stream.SetDeadline(time.Now().Add(2 * time.Second))
+		wn, werr := cc.stream.Write(data)
+		cerr := cc.stream.Close()
+		cc.stream = nil
+		if werr == nil && wn == n && cerr == nil {
+			sw, _ := cc.conn.(*streamWrapper)
+			if sw != nil && !c19WaitFor(5*time.Second, func() bool { return !sw.stream.IsOpen() }) {
+				c.setFail("peer-close-not-seen", "5 s after the client closed its stream the server's end is still open")
+			}
+			cc.conn.SetDeadline(time.Now().Add(2 * time.Second))
+			got := make([]byte, 0, n)
+			buf := make([]byte, 333)
+			var rerr error
+			for rerr == nil && len(got) <= n {
+				var rn int
+				rn, rerr = cc.conn.Read(buf)
+				if rerr == nil && (rn < 1 || rn > len(buf)) {
+					c.setFail("read-contract", fmt.Sprintf("Read returned n=%d, err=nil", rn))
+					break
+				}
+				got = append(got, buf[:rn]...)
+			}
+			// S (C19): Write returned len(p), nil and Close returned nil: the reader gets all of it before the end of the stream
+			if !bytes.Equal(got, data) {
+				c.setFail("tail-lost", fmt.Sprintf("the client wrote %d bytes (Write = %d, nil) and closed (nil); the server, reading afterwards, got %d of them and then: %v", n, wn, len(got), rerr))
+			} else if rerr != io.EOF && rerr != ErrEndOfStream {
+				c.setFail("tail-no-eof", fmt.Sprintf("after the last byte of a stream its peer closed, Read returned %v instead of the end of the stream", rerr))
+			}
+			c.tags["tail-then-close"] = true
+		}
+		return "ok " + c.snap()
 	case len(f) == 2 && f[0] == "cclose":
 		ci := vAtoi(f[1])
 		if ci < 0 || ci >= len(c.conns) {
@@ -458,7 +504,11 @@ func c19Gen(r *rand.Rand, tier string, idx int) []string {
 				nconn++
 			}
 		case x < 15 && nconn > 0:
-			ops = append(ops, fmt.Sprintf("echo %d %d", r.Intn(nconn), []int{1, 10, 1000, 5000, 40000}[r.Intn(5)]))
+			if r.Intn(4) == 0 {
+				ops = append(ops, fmt.Sprintf("tail %d %d", r.Intn(nconn), []int{1, 31, 1000, 5000, 16384}[r.Intn(5)]))
+			} else {
+				ops = append(ops, fmt.Sprintf("echo %d %d", r.Intn(nconn), []int{1, 10, 1000, 5000, 40000}[r.Intn(5)]))
+			}
 		case x < 17 && nconn > 0:
 			ops = append(ops, fmt.Sprintf("cclose %d", r.Intn(nconn)))
 		case x < 18:
